@@ -41,18 +41,19 @@ const (
 	vcArray      // [v] for a scalar
 	vcKindEdge   // the kind's own minimum / maximum
 	vcEmptyList  // an empty or nil value list where the unmarshaler takes the first of several values (WithFromArray)
+	vcSepValue   // a text with list separators, quotes or blanks around/inside it (string-valued sources and string fields)
 	vcNumClasses // sentinel
 )
 
 var vclassNames = [...]string{"absent", "null", "valid", "below-lo", "at-lo", "above-lo", "below-hi", "at-hi", "above-hi", "far",
 	"opt-out", "opt-in-out-of-range", "wrong-string", "wrong-bool", "cross-type", "non-canonical", "overflow", "negative", "fraction",
-	"empty-string", "object", "array", "kind-edge", "empty-list"}
+	"empty-string", "object", "array", "kind-edge", "empty-list", "separators-in-value"}
 
 func (c vclass) String() string { return vclassNames[c] }
 
 // perturbations tried by the random families (absent/null/valid are handled separately)
 var perturbClasses = []vclass{vcBelowLo, vcAtLo, vcAboveLo, vcBelowHi, vcAtHi, vcAboveHi, vcFar, vcOptOut, vcOptOutRng,
-	vcWrongStr, vcWrongBool, vcCross, vcNonCanon, vcOverflow, vcNegative, vcFraction, vcEmptyStr, vcObject, vcArray, vcKindEdge, vcEmptyList}
+	vcWrongStr, vcWrongBool, vcCross, vcNonCanon, vcOverflow, vcNegative, vcFraction, vcEmptyStr, vcObject, vcArray, vcKindEdge, vcEmptyList, vcSepValue}
 
 func kindMin(k reflect.Kind) *big.Int {
 	lo, _ := intBounds(k)
@@ -193,11 +194,16 @@ func validFloat(f *fieldD, r *kit.Rand) (float64, bool) {
 	k := f.Kind
 	if f.Rng == nil {
 		v := float64(r.Range(-4000, 4000)) / 8
-		if r.Chance(0.15) {
+		switch r.Pick(75, 15, 10) {
+		case 1:
 			v = float64(r.Range(-1000000, 1000000)) * 1.0009765625
 			if k == reflect.Float32 {
 				v = float64(float32(v))
 			}
+		case 2:
+			// few significant digits, large or tiny magnitude (the shortest text of the value is in
+			// exponent notation): 2e+06, 3e-07, 1.5e+10
+			v = magnitudeFloat(r, k)
 		}
 		return v, true
 	}
@@ -238,6 +244,94 @@ func validFloat(f *fieldD, r *kit.Rand) (float64, bool) {
 		}
 	}
 	return 0, false
+}
+
+// magnitudeFloat: d x 10^e (d of one or two significant digits) as the nearest value of the kind.
+func magnitudeFloat(r *kit.Rand, k reflect.Kind) float64 {
+	d := strconv.Itoa(r.Range(1, 9))
+	if r.Chance(0.3) {
+		d += "." + strconv.Itoa(r.Range(1, 9))
+	}
+	if r.Bool() {
+		d = "-" + d
+	}
+	exp := r.Range(6, 30)
+	if r.Bool() {
+		exp = -r.Range(5, 30)
+	}
+	v, _ := strconv.ParseFloat(d+"e"+strconv.Itoa(exp), bitsOf(k))
+	return v
+}
+
+// sepTexts: realistic header / parameter texts with separators in them.
+var sepTexts = []string{"Wed, 21 Oct 2015 07:28:00 GMT", "Mozilla/5.0 (X11; Linux) AppleWebKit/537.36 (KHTML, like Gecko)", "gzip, deflate, br",
+	"text/html,application/xml;q=0.9,*/*;q=0.8", "a,b", "a, b", ",", "a,", ",a", "a,,b", "a;b", "a|b", `"a,b"`, `a,"b,c"`, " a", "a ", " a , b ",
+	"a\tb", "k=v&x=y", "%2C", "[1,2]", `{"a":1}`, "1,2", "1.5,2.5", "true,false", "null", "ü,ñ", "a\\,b", "'a','b'"}
+
+// sepValue: a supplied text with list separators, quotes or blanks in or around it. For a string
+// field it is an ordinary value (it must arrive verbatim; with options it is one of them only if
+// the whole text is), for the other kinds it is not a value of the kind at all.
+func sepValue(f *fieldD, e *entry, r *kit.Rand) any {
+	k := f.Kind
+	part := func(valid bool) string {
+		cls := vcValid
+		if !valid && isNumeric(k) && f.Rng != nil {
+			cls = vcFar
+		}
+		if !valid && len(f.Options) > 0 {
+			cls = vcOptOut
+		}
+		plain := &fieldD{Kind: k, Rng: f.Rng, Options: f.Options}
+		leaf, ok := genLeaf(plain, cls, entries["strvals"], r)
+		if !ok {
+			leaf, ok = genLeaf(&fieldD{Kind: k}, vcValid, entries["strvals"], r)
+		}
+		if s, isStr := leaf.(string); ok && isStr && s != "" {
+			return s
+		}
+		return "7"
+	}
+	a, b := part(true), part(r.Bool())
+	var text string
+	switch r.Pick(5, 3, 2, 2, 1, 1, 1, 1, 1, 1, 1, 1, 1, 3) {
+	case 0:
+		text = a + "," + b
+	case 1:
+		text = a + ", " + b
+	case 2:
+		text = a + ";" + b
+	case 3:
+		text = a + " " + b
+	case 4:
+		text = " " + a
+	case 5:
+		text = a + " "
+	case 6:
+		text = `"` + a + `"`
+	case 7:
+		text = a + ","
+	case 8:
+		text = "," + a
+	case 9:
+		text = a + ",," + b
+	case 10:
+		text = a + "\t"
+	case 11:
+		text = a + "|" + b
+	case 12:
+		text = a + "," + b + "," + a
+	default:
+		if k == reflect.String {
+			text = kit.Choose(r, sepTexts)
+		} else {
+			text = a + "," + b
+		}
+	}
+	if e.Ctx.FromArray && r.Chance(0.2) {
+		// several values, the first of them with separators
+		return []any{text, a}
+	}
+	return text
 }
 
 func optionsInRange(f *fieldD, in bool) []string {
@@ -546,6 +640,11 @@ func genLeaf(f *fieldD, cls vclass, e *entry, r *kit.Rand) (any, bool) {
 			return nil, false
 		}
 		return emptyList(r), true
+	case vcSepValue:
+		if ctx.Native || !(ctx.AllFromString || k == reflect.String) {
+			return nil, false
+		}
+		return sepValue(f, e, r), true
 	case vcKindEdge:
 		if !(isInt(k) || isUint(k)) {
 			return nil, false
@@ -1109,7 +1208,21 @@ func (ig *inputGen) perturb(sl slot, e *entry) {
 	}
 	if !f.scalar() {
 		// composite: wrong shapes
-		switch r.Pick(1, 1, 1, 1) {
+		switch r.Pick(2, 2, 2, 2, 1) {
+		case 4:
+			// a text where a list / object is expected (go-zero reads it as a JSON text, or as base64
+			// for []byte); the reference does not model what such a text supplies
+			if !e.Ctx.Native {
+				switch f.Kind {
+				case reflect.Slice:
+					sl.tree[k] = kit.Choose(r, []string{"AQID", "[1,2,3]", `["a","b"]`, "[]", "not-json", "[1,", "", "[null]", `[{"x":1}]`, "[1.5,true]"})
+				case reflect.Map:
+					sl.tree[k] = kit.Choose(r, []string{`{"m0":1}`, "{}", `{"m0":"a"}`, "not-json", `{"m0":`, "", "null", `{"m0":{"x":100}}`})
+				default:
+					sl.tree[k] = kit.Choose(r, []string{"{}", "x", ""})
+				}
+				ig.note(f, "->text-for-composite")
+			}
 		case 0:
 			if !e.Ctx.AllFromString || e.Ctx.Name == "strvals" {
 				sl.tree[k] = json.Number("5")
